@@ -224,7 +224,9 @@ func generateMode(key echx.KeyPair, b base, thorough, retry bool) (out []fault) 
 	// F6 inner does not offer TLS 1.3
 	if !b.Compress {
 		// (GREASE values, RFC 8701, are not versions: a list of GREASE + TLS 1.2 does not offer TLS 1.3)
-		for _, v := range [][]uint16{{0x0303}, {0x0303, 0x0302}, nil, {0x7a7a, 0x0303}, {0x0303, 0xfafa}, {0x0a0a}} {
+		// ... nor are DTLS versions (0xfefd = DTLS 1.2, 0xfefc = DTLS 1.3) or TLS 1.3 draft versions (0x7f1c): none of them is
+		// the TLS 1.3 a backend behind this server could negotiate
+		for _, v := range [][]uint16{{0x0303}, {0x0303, 0x0302}, nil, {0x7a7a, 0x0303}, {0x0303, 0xfafa}, {0x0a0a}, {0xfefd}, {0xfefc, 0xfefd}, {0x7f1c, 0x0303}, {0xfeff, 0x0303}} {
 			s6 := s
 			s6.EncInner = slices.Clone(s.EncInner)
 			for i, e := range s6.EncInner {
@@ -418,6 +420,23 @@ func generateMode(key echx.KeyPair, b base, thorough, retry bool) (out []fault) 
 			}
 			add("inner-malformed-"+bx.name, "", []string{DE, IP}, s9.Build().Outer.Record())
 		}
+	}
+	// F9e an inner-type ECH extension that is not empty (the inner variant has no fields): inside the authentic inner hello, and in
+	// an outer hello with and without keys
+	for _, body := range [][]byte{{1, 0xaa, 0xbb}, {1, 0}} {
+		s10 := s
+		s10.EncInner = slices.Clone(s.EncInner)
+		for i, e := range s10.EncInner {
+			if e.Type == tlsref.ExtECH {
+				s10.EncInner[i] = tlsref.Ext{Type: tlsref.ExtECH, Data: body}
+			}
+		}
+		add("inner-malformed-ech-inner-not-empty", fmt.Sprint(len(body)), []string{DE, IP}, s10.Build().Outer.Record())
+		h := plain.Clone()
+		h.Exts = append(h.Exts, tlsref.Ext{Type: tlsref.ExtECH, Data: body})
+		add("outer-malformed-ech-inner-not-empty", fmt.Sprint(len(body)), []string{DE, IP}, h.Record())
+		f := add("outer-malformed-ech-inner-not-empty-nokeys", fmt.Sprint(len(body)), []string{DE, IP}, h.Record())
+		f.noKeys = true
 	}
 	// F10 first record is not a ClientHello
 	for _, ct := range []byte{0, 20, 21, 23, 24, 255} {
